@@ -110,9 +110,14 @@ theorem new_rejects_fewer_than_two_bins (underlying : α → α → α) (su : Sp
 /-- `new` with its allocations (`cap`: the largest count of values that can be reserved on the machine —
 data).  It never panics or aborts, for every bin count: a bin count, or a product of the two bin counts, that
 cannot be allocated is the allocation error (before the repair `vec![x0; n]` aborted the process for
-`speed_bins = 4·10¹²` and panicked for `usize::MAX`), returned before anything is predicted; otherwise it is
+`speed_bins = 4·10¹²` and panicked for `usize::MAX`), returned before `new` itself predicts anything (inside
+`load_prediction_model` the underlying model has been loaded — and, for a nested interpolation, its own grid
+filled — by then); otherwise it is
 `new` — so every theorem below about the models of `new` applies to what it returns.  A table that can be
-allocated but takes very long to fill is not modelled. -/
+allocated but takes very long to fill is not modelled, and neither is running out of memory afterwards: the
+code probes the table size on a temporary `Vec` that is dropped and then fills a `Vec<Vec<f64>>` by `push`,
+so under memory overcommit a bin count can pass the checks and the process still be killed while filling —
+"never panics or aborts" is a statement about the model with `cap` as data. -/
 theorem new_alloc_never_panics (cap : Nat) (underlying : α → α → α) (su : SpeedUnit) (s0 s1 : α) (sb : Nat)
     (gu : GradeUnit) (g0 g1 : α) (gb : Nat) (ru : EnergyRateUnit) :
     ((∃ m, SpeedGradeModel.newAlloc cap underlying su s0 s1 sb gu g0 g1 gb ru = .ok m) ∨
@@ -235,11 +240,15 @@ def cellValue (underlying : α → α → α) (x0 x1 y0 y1 p q : α) : α :=
   lerp (lerp (underlying x0 y0) (underlying x1 y0) ((p - x0) / (x1 - x0)))
     (lerp (underlying x0 y1) (underlying x1 y1) ((p - x0) / (x1 - x0))) ((q - y0) / (y1 - y0))
 
-/-- C14 (continuity across cell borders, discrete content): the prediction equals the bilinear formula
-of *every* grid cell whose closed rectangle contains the input — so on a common border (or corner) all
-adjacent cells give the same value, and the piecewise-bilinear pieces (each continuous on its closed
-cell) paste together continuously -/
-theorem continuous_across_cells (underlying : α → α → α) (su : SpeedUnit) (s0 s1 : α) (sb : Nat)
+/-- C14 (continuity across cell borders) — PARTIAL.  Full statement of the property: the predicted rate, as
+a function of speed and grade, is continuous (in the topological / ε–δ sense) on the whole plane, across
+cell borders included.  Proved here is its discrete content: the prediction equals the bilinear formula of
+*every* grid cell whose closed rectangle contains the input — so on a common border (or corner) all adjacent
+cells give the same value.  Together with the per-cell Lipschitz bounds `cell_value_lipschitz_speed/_grade`
+below (and the clamp, which is 1-Lipschitz) this is what a continuity proof by pasting needs; what is
+missing is the pasted global statement itself (a `Continuous` / ε–δ theorem over α = ℝ): not proved, the
+theorems are over an arbitrary ordered field without topology. -/
+theorem continuous_across_cells_partial (underlying : α → α → α) (su : SpeedUnit) (s0 s1 : α) (sb : Nat)
     (gu : GradeUnit) (g0 g1 : α) (gb : Nat) (ru : EnergyRateUnit) (m : SpeedGradeModel α)
     (hnew : SpeedGradeModel.new underlying su s0 s1 sb gu g0 g1 gb ru = .ok m) (xs ys : List α) (hxs : linspace s0 s1 sb = .ok xs) (hys : linspace g0 g1 gb = .ok ys)
     (i j : Nat) (x0 x1 y0 y1 : α) (hx0 : xs[i]? = some x0) (hx1 : xs[i + 1]? = some x1)
@@ -293,7 +302,7 @@ theorem border_values_agree (underlying : α → α → α) (x0 x1 x2 y0 y1 q : 
 
 /-- within one closed cell the formula is Lipschitz in the speed coordinate, with the constant read off the
 corner values: `|v(p,q) − v(p',q)| ≤ |p − p'| / (x1 − x0) · max(|u10 − u00|, |u11 − u01|)`.  With
-`continuous_across_cells` (the prediction *is* this formula on every closed cell containing the input, so the
+`continuous_across_cells_partial` (the prediction *is* this formula on every closed cell containing the input, so the
 pieces agree on common borders) this is continuity of the prediction in the ε–δ sense, cell by cell; no
 topological `Continuous` statement is proved (the theorems are over an arbitrary ordered field). -/
 theorem cell_value_lipschitz_speed (underlying : α → α → α) (x0 x1 y0 y1 p p' q : α) (hx : x0 < x1)
@@ -493,6 +502,10 @@ theorem multiAffine_bilinear (c0 c1 c2 c3 : α) :
 `nd1 / nd2 / nd3` are the N-D interpolators over the same grid and the same values stored row-major (what
 `ArrayD::from_shape_vec` holds); agreement is for every point, inside (same value) and outside (both reject). -/
 
+/-- 1-D: needs at least two grid points (`hlen`, inside the property's own quantifier "bin counts ≥ 2").
+Without it the statement is false: `Interp1D::new` accepts a one-point axis but the N-D interpolator over the
+same data cannot even be constructed (`ndim()` is 0 for a single value, so the one grid is one too many) —
+`nd_agrees_1d_one_point_counterexample` below. -/
 theorem nd_agrees_1d (x f : List α) (hv : validate1 x f = .ok ()) (hlen : 2 ≤ x.length) (p : α) :
     Interpolator.interpolate (.dn (nd1 x f)) [p] .linear = Interpolator.interpolate (.d1 x f) [p] .linear := by
   obtain ⟨hs, hf⟩ := validate1_ok hv
@@ -861,22 +874,41 @@ theorem load_never_panics (cap : Nat) (rf : α → α → α) (fileOk : Bool) (m
         unfold loadPredictionModel
         simp only [he, Res.err_bind]
 
-/-- the interpolated model against the underlying model, both as loaded: at every grid point (given in the
-model's units) the two `PredictionModel::predict` results are the same -/
-theorem loaded_interpolation_matches_underlying_on_grid (cap : Nat) (rf : α → α → α) (su : SpeedUnit) (gu : GradeUnit)
+/-- the interpolated model against its underlying model — of any model type: a forest, or another
+interpolation, to any depth —, both as loaded: the underlying model was loaded (default ideal rate and
+adjustment), and at every grid point (given in the model's units) the two `PredictionModel::predict` results
+are the same -/
+theorem loaded_interpolation_matches_underlying_on_grid (cap : Nat) (rf : α → α → α) (u : ModelType α)
+    (su : SpeedUnit) (gu : GradeUnit) (ru : EnergyRateUnit) (s0 s1 : α) (sb : Nat) (g0 g1 : α) (gb : Nat)
+    (i1 a1 : Option α) (ri : Record α)
+    (hi : loadPredictionModel cap rf true (.interpolate u s0 s1 sb g0 g1 gb) su gu ru i1 a1 = .ok ri)
+    (xs ys : List α) (hxs : linspace s0 s1 sb = .ok xs) (hys : linspace g0 g1 gb = .ok ys)
+    (i j : Nat) (x y : α) (hx : xs[i]? = some x) (hy : ys[j]? = some y) :
+    ∃ urec, loadPredictionModel cap rf true u su gu ru none none = .ok urec ∧
+      ri.model x su y gu = urec.model x su y gu := by
+  obtain ⟨urec, m, hu, htot, hm, hmod, _⟩ := load_interpolate_is_new cap rf u su gu ru s0 s1 sb g0 g1 gb i1 a1 ri hi
+  refine ⟨urec, hu, ?_⟩
+  rw [hmod, htot x y]
+  exact exact_on_grid _ su s0 s1 sb gu g0 g1 gb ru m hm xs ys hxs hys i j x y hx hy x su y gu
+    (speed_convert_self su x) (grade_convert_self gu y)
+
+/-- … in particular over a forest, against the smartcore model loaded with any ideal rate and adjustment: the
+forest's own value at the grid point -/
+theorem loaded_interpolation_matches_forest_on_grid (cap : Nat) (rf : α → α → α) (su : SpeedUnit) (gu : GradeUnit)
     (ru : EnergyRateUnit) (s0 s1 : α) (sb : Nat) (g0 g1 : α) (gb : Nat) (i1 a1 i2 a2 : Option α)
     (ri ru' : Record α)
     (hi : loadPredictionModel cap rf true (.interpolate .smartcore s0 s1 sb g0 g1 gb) su gu ru i1 a1 = .ok ri)
     (hu : loadPredictionModel cap rf true .smartcore su gu ru i2 a2 = .ok ru')
     (xs ys : List α) (hxs : linspace s0 s1 sb = .ok xs) (hys : linspace g0 g1 gb = .ok ys)
     (i j : Nat) (x y : α) (hx : xs[i]? = some x) (hy : ys[j]? = some y) :
-    ri.model x su y gu = ru'.model x su y gu := by
+    ri.model x su y gu = ru'.model x su y gu ∧ ri.model x su y gu = .ok (rf x y, ru) := by
   obtain ⟨m, hm, hmod⟩ := load_interpolate_over_forest_is_new cap rf su gu ru s0 s1 sb g0 g1 gb i1 a1 ri hi
   obtain ⟨r, hr, hrm, _⟩ := load_smartcore cap rf su gu ru i2 a2
   rw [hr] at hu; cases hu
-  rw [hmod, hrm, (smartcore_predict_def rf su gu ru x su y gu).2]
-  exact exact_on_grid rf su s0 s1 sb gu g0 g1 gb ru m hm xs ys hxs hys i j x y hx hy x su y gu
+  have h := exact_on_grid rf su s0 s1 sb gu g0 g1 gb ru m hm xs ys hxs hys i j x y hx hy x su y gu
     (speed_convert_self su x) (grade_convert_self gu y)
+  rw [hmod, hrm, (smartcore_predict_def rf su gu ru x su y gu).2]
+  exact ⟨h, h⟩
 
 /-- (by construction of the model — an unfolding of `Record.predict`; that the *code* does this is evidenced
 by the differential run, oracle key `load/record_energy`)
@@ -927,14 +959,27 @@ example : Interpolator.interpolate (.d1 [(5 : ℚ)] [1]) [5] .linear = .ok 1 ∧
 
 /-! ### remaining defect of the code, machine-checked on the faithful model (ℚ) -/
 
-/-- the raw (public) `Interp2D::linear` does not reject points outside the grid: above the grid it
-indexes out of bounds, below it extrapolates (`0 + (1-0)·(-1) = -1` is not between the corner values);
+/-- the raw (public) `Interp1D/2D/3D/ND::linear` methods do not reject points outside the grid: above the grid
+they index out of bounds, below it they extrapolate (`0 + (1-0)·(-1) = -1` is not between the corner values);
 only `Interpolator::interpolate` rejects.  Left as a known finding: whether the raw methods should reject,
 clamp or extrapolate is an API decision (the only caller in the workspace goes through `interpolate`). -/
 theorem raw_linear_outside_counterexample :
     linear2 [(0 : ℚ), 1] [0, 1] [[0, 0], [1, 1]] [2, 0] = .panic .index ∧
       linear2 [(0 : ℚ), 1] [0, 1] [[0, 0], [1, 1]] [-1, 0] = .ok (-1) ∧
-      Interpolator.interpolate (.d2 [(0 : ℚ), 1] [0, 1] [[0, 0], [1, 1]]) [2, 0] .linear = .err .outside := by
+      Interpolator.interpolate (.d2 [(0 : ℚ), 1] [0, 1] [[0, 0], [1, 1]]) [2, 0] .linear = .err .outside ∧
+      linear1 [(0 : ℚ), 1] [0, 1] 2 = .panic .index ∧ linear1 [(0 : ℚ), 1] [0, 1] (-1) = .ok (-1) ∧
+      linear3 [(0 : ℚ), 1] [0, 1] [0, 1] [[[0, 0], [0, 0]], [[1, 1], [1, 1]]] [2, 0, 0] = .panic .index ∧
+      linear3 [(0 : ℚ), 1] [0, 1] [0, 1] [[[0, 0], [0, 0]], [[1, 1], [1, 1]]] [-1, 0, 0] = .ok (-1) ∧
+      linearN (nd2 [(0 : ℚ), 1] [0, 1] [[0, 0], [1, 1]]) [2, 1 / 2] = .panic .index ∧
+      linearN (nd2 [(0 : ℚ), 1] [0, 1] [[0, 0], [1, 1]]) [-1, 1 / 2] = .ok (-1) := by
+  decide +kernel
+
+/-- `nd_agrees_1d` without its `2 ≤ x.length`: a one-point 1-D interpolator is accepted and works, the N-D
+interpolator over the same data is refused by `InterpND::new` -/
+theorem nd_agrees_1d_one_point_counterexample :
+    validate1 [(5 : ℚ)] [1] = .ok () ∧ validateN (nd1 [(5 : ℚ)] [1]) = .err .gridDim ∧
+      Interpolator.interpolate (.d1 [(5 : ℚ)] [1]) [5] .linear = .ok 1 ∧
+      Interpolator.interpolate (.dn (nd1 [(5 : ℚ)] [1])) [5] .linear = .err .pointLen := by
   decide +kernel
 
 /-! ### non-vacuity: the hypotheses are met and the functions compute -/
@@ -1019,6 +1064,27 @@ example : Interpolator.interpolate (.dn (nd2 [(0 : ℚ), 1, 3] [0, 2] [[0, 2], [
     (List.Forall₂.cons ⟨0, 3, by decide +kernel, by decide +kernel, by norm_num, by norm_num⟩
       (List.Forall₂.cons ⟨0, 2, by decide +kernel, by decide +kernel, by norm_num, by norm_num⟩ List.Forall₂.nil))
   simpa using this
+
+/-- a nested `Interpolate{Interpolate{Smartcore}}` configuration loads (`load_interpolate_succeeds` twice, every
+premise discharged), so `load_interpolate_is_new` / `loaded_interpolation_matches_underlying_on_grid` apply to
+it; and it computes: the swept ideal rate is attained (20 = rf at 20 mph, grade 0) and a prediction goes
+through both levels -/
+example : ∃ r, loadPredictionModel 1000 (fun (s g : ℚ) => s + 2 * g) true
+      (.interpolate (.interpolate .smartcore 0 100 3 (-1) 1 3) 10 90 5 (-1 / 2) (1 / 2) 3)
+      .milesPerHour .decimal .gallonsGasolinePerMile none none = .ok r := by
+  obtain ⟨r0, h0, _⟩ := load_smartcore 1000 (fun (s g : ℚ) => s + 2 * g) .milesPerHour .decimal
+    .gallonsGasolinePerMile none none
+  obtain ⟨r1, h1⟩ := (load_interpolate_succeeds 1000 (fun (s g : ℚ) => s + 2 * g) .smartcore .milesPerHour
+    .decimal .gallonsGasolinePerMile 0 100 3 (-1) 1 3 none none r0 h0).1 (by norm_num) (by norm_num)
+    (by norm_num) (by norm_num) (by norm_num) (by norm_num) (by norm_num)
+  exact (load_interpolate_succeeds 1000 (fun (s g : ℚ) => s + 2 * g) (.interpolate .smartcore 0 100 3 (-1) 1 3)
+    .milesPerHour .decimal .gallonsGasolinePerMile 10 90 5 (-1 / 2) (1 / 2) 3 none none r1 h1).1 (by norm_num)
+    (by norm_num) (by norm_num) (by norm_num) (by norm_num) (by norm_num) (by norm_num)
+example : (loadPredictionModel 1000 (fun (s g : ℚ) => s + 2 * g) true
+      (.interpolate (.interpolate .smartcore 0 100 3 (-1) 1 3) 10 90 5 (-1 / 2) (1 / 2) 3)
+      .milesPerHour .decimal .gallonsGasolinePerMile none none).bind
+      (fun r => (r.model 30 .milesPerHour (1 / 4) .decimal).bind fun p => .ok (r.idealEnergyRate, p.1))
+    = .ok ((20 : ℚ), (30 + 1 / 2 : ℚ)) := by decide +kernel
 
 /-- `validated_interpolation_never_panics` on a constructed N-D interpolator over a single value -/
 example : ∀ pt s, (∃ v, Interpolator.interpolate
